@@ -1,0 +1,76 @@
+//go:build verif
+
+package proxycore
+
+import (
+	"sync/atomic"
+)
+
+// VerifHook is called at the named instrumentation points when the package is built with the `verif` build tag. It
+// can record the event, yield/sleep, or block until released. It must be set before any connection is created.
+var VerifHook func(point string, args ...interface{})
+
+func verifAt(point string, args ...interface{}) {
+	if h := VerifHook; h != nil {
+		h(point, args...)
+	}
+}
+
+// VerifAt lets other packages of this module report to the same hook.
+func VerifAt(point string, args ...interface{}) {
+	verifAt(point, args...)
+}
+
+// VerifPending returns the number of free stream ids and the number of pending (mapped) requests.
+func (c *ClientConn) VerifPending() (free int, mapped int) {
+	free = len(c.pending.streams)
+	c.pending.pending.Range(func(_, _ interface{}) bool {
+		mapped++
+		return true
+	})
+	return free, mapped
+}
+
+// VerifAddrs returns the local and remote address of the underlying connection.
+func (c *ClientConn) VerifAddrs() (local, remote string) {
+	if c.conn == nil {
+		return "", ""
+	}
+	return c.conn.LocalAddr().String(), c.conn.RemoteAddr().String()
+}
+
+// VerifEndpoint returns the endpoint key of the pool.
+func (p *connPool) VerifEndpoint() string {
+	return p.config.Endpoint.Key()
+}
+
+// VerifKeyspace returns the keyspace of the pool's session.
+func (p *connPool) VerifKeyspace() string {
+	return p.config.Keyspace
+}
+
+// VerifConns returns all the live connections of a session.
+func (s *Session) VerifConns() (conns []*ClientConn) {
+	s.pools.Range(func(_, value interface{}) bool {
+		if pool, ok := value.(*connPool); ok && pool != nil {
+			pool.connsMu.RLock()
+			for _, c := range pool.conns {
+				if c != nil {
+					conns = append(conns, c)
+				}
+			}
+			pool.connsMu.RUnlock()
+		}
+		return true
+	})
+	return conns
+}
+
+// VerifSetPlanCounter presets the round-robin counter used for the next query plan.
+func VerifSetPlanCounter(lb LoadBalancer, n uint32) bool {
+	if rr, ok := lb.(*roundRobinLoadBalancer); ok {
+		atomic.StoreUint32(&rr.index, n)
+		return true
+	}
+	return false
+}
